@@ -151,6 +151,7 @@ type Interp struct {
 	concPos    int
 	fnSeen     map[*ssa.Function]bool
 	logs       []*logRec
+	delays     int
 }
 
 type pathAbort struct {
@@ -490,7 +491,20 @@ func (in *Interp) schedule() {
 			} else {
 				cands = enabled
 			}
-			c := in.choose(len(cands), "sched")
+			nc := len(cands)
+			if in.cfg.MaxDelay > 0 || in.cfg.DelayBounded {
+				// delay-bounded scheduling: deviating from the default (first) candidate by k
+				// positions costs k delays out of a per-path budget
+				left := in.cfg.MaxDelay - in.delays
+				if left < 0 {
+					left = 0
+				}
+				if nc > left+1 {
+					nc = left + 1
+				}
+			}
+			c := in.choose(nc, "sched")
+			in.delays += c
 			g = cands[c]
 			if curEnabled && g != in.cur {
 				in.preempts++
